@@ -74,7 +74,7 @@ TraceVer ==
             \cup Cl(o.deb = DebVersion(c), "C14.version_string.deb")
             \cup Cl(o.ipk = DebVersion(c), "C14.version_string.ipk")
             \cup Cl(o.rpm.version = RpmVersion(c) /\ o.rpm.release = RpmRelease(c)
-                    /\ o.rpm.epoch = (IF c.epoch = "" THEN "" ELSE NatToStr(ToNat(c.epoch))), "C14.version_string.rpm")
+                    /\ o.rpm.epoch = (IF c.epoch = "" THEN "" ELSE NormNum(c.epoch)), "C14.version_string.rpm")
             \cup Cl(o.apk = ApkVersion(c), "C14.version_string.apk")
             \cup { x \in archCl : ~HasPrefix(x, "DOC.") },
             { x \in (IF o.err # "" THEN {} ELSE archCl) : HasPrefix(x, "DOC.") }, {})
